@@ -30,6 +30,9 @@ Definition cfg_fixed : cfg := mkCfg true true true true.
 
 Record env := mkEnv { e_cfg : cfg; e_cap : Z; e_fuel : nat }.
 
+(* linear-time list reversal (List.rev is quadratic); frev l = rev l is Model-independent: List.rev_alt *)
+Definition frev {A} (l : list A) : list A := rev_append l [].
+
 (* ------------------------------------------------------------------ characters *)
 Definition isspace (c : Z) : bool := (c =? 32) || ((9 <=? c) && (c <=? 13)).   (* " \t\n\v\f\r" *)
 Definition issp4 (c : Z) : bool := (c =? 32) || (c =? 9) || (c =? 13) || (c =? 10).  (* SPACES of String.hpp *)
@@ -49,7 +52,7 @@ Fixpoint is_prefix (p s : list Z) : bool :=
   end.
 Fixpoint dropwhile (f : Z -> bool) (l : list Z) : list Z :=
   match l with c :: r => if f c then dropwhile f r else l | [] => [] end.
-Definition trim (l : list Z) : list Z := dropwhile issp4 (rev (dropwhile issp4 (rev l))).
+Definition trim (l : list Z) : list Z := dropwhile issp4 (frev (dropwhile issp4 (frev l))).
 Definition starts_hash (w : list Z) : bool := match w with c :: _ => c =? 35 | [] => false end.
 
 (* ------------------------------------------------------------------ the input stream *)
@@ -254,7 +257,7 @@ Definition read_vec_raw (E : env) (site : Z) (nvalues base total : Z) (m : mon) 
         match rv_words (fix_store (e_cfg E)) nvalues base total (words line) 0 [] with
         | VOOB => Bad (OOB site)
         | VFail => Ret None (set_ms m s')
-        | VDone ecr acc => if nvalues =? ecr then Ret (Some (rev acc)) (set_ms m s') else Ret None (set_ms m s')
+        | VDone ecr acc => if nvalues =? ecr then Ret (Some (frev acc)) (set_ms m s') else Ret None (set_ms m s')
         end
     end
   else if nvalues =? 0 then Ret (Some []) m else Ret None m.
